@@ -1,0 +1,15 @@
+//go:build verif
+
+package HolidayUtil
+
+// VerifData returns the holiday table currently in use (18-character records).
+func VerifData() string { return dataInUse }
+
+// VerifNames returns a copy of the name list currently in use.
+func VerifNames() []string { return append([]string(nil), namesInUse...) }
+
+// VerifReset restores the table and the name list the package starts with.
+func VerifReset() {
+	namesInUse = NAMES
+	dataInUse = data
+}
